@@ -1,7 +1,7 @@
 (** C08 -- Paillier: ciphertext add / scalar mul are homomorphic modulo N.
     Statements only; same model and premises as Props/C07.v. *)
 From Coq Require Import ZArith List.
-From SL Require Import Lib.Base Model.Paillier Proofs.PaillierNT Proofs.PaillierWidth Proofs.PaillierDec Proofs.PaillierHom Proofs.PaillierExamples.
+From SL Require Import Lib.Base Model.Paillier Proofs.PaillierNT Proofs.PaillierWidth Proofs.PaillierDec Proofs.PaillierHom Proofs.PaillierChain Proofs.PaillierExamples.
 Local Open Scope Z_scope.
 
 (** add returns c1*c2 mod N^2 *)
@@ -81,6 +81,78 @@ Check mul_vartime_hom : forall (w : widths) (p q : Z), widths_ok w -> key_ok w p
   forall m r k : Z, 0 <= m < p * q -> 0 <= k < p * q -> 0 <= r -> Z.gcd r (p * q) = 1 ->
   decrypt w (from_pq w p q) (mul_vartime w (sk_pk (from_pq w p q)) (encrypt w (sk_pk (from_pq w p q)) m r) k) = (k * m) mod (p * q).
 Print Assumptions mul_vartime_hom.
+
+(** ---- compositional form: any ciphertext that carries a plaintext, any depth of operations ----
+    [carries p q c m] (Proofs/PaillierChain.v): 0 <= c and c = (1 + m N) r^N (mod N^2) for a unit r >= 0;
+    m is an unreduced integer.  Fresh encryptions carry their plaintext; the results of add / mul carry the
+    sum / product, so the homomorphisms apply again to those results. *)
+Theorem fresh_ciphertext_carries : forall (w : widths) (p q : Z), widths_ok w -> key_ok w p q ->
+  forall m r : Z, 0 <= m < p * q -> 0 <= r -> Z.gcd r (p * q) = 1 ->
+  carries p q (encrypt w (sk_pk (from_pq w p q)) m r) m.
+Proof. exact carries_enc. Qed.
+Check fresh_ciphertext_carries : forall (w : widths) (p q : Z), widths_ok w -> key_ok w p q ->
+  forall m r : Z, 0 <= m < p * q -> 0 <= r -> Z.gcd r (p * q) = 1 ->
+  carries p q (encrypt w (sk_pk (from_pq w p q)) m r) m.
+Print Assumptions fresh_ciphertext_carries.
+
+Theorem add_hom_any_ciphertext : forall (w : widths) (p q : Z), widths_ok w -> key_ok w p q ->
+  forall c1 m1 c2 m2 : Z, carries p q c1 m1 -> carries p q c2 m2 ->
+  carries p q (add w (sk_pk (from_pq w p q)) c1 c2) (m1 + m2) /\
+  decrypt w (from_pq w p q) (add w (sk_pk (from_pq w p q)) c1 c2) = (m1 + m2) mod (p * q) /\
+  decrypt_fast w (from_pq w p q) (add w (sk_pk (from_pq w p q)) c1 c2) = (m1 + m2) mod (p * q).
+Proof. exact S_add_hom_any. Qed.
+Check add_hom_any_ciphertext : forall (w : widths) (p q : Z), widths_ok w -> key_ok w p q ->
+  forall c1 m1 c2 m2 : Z, carries p q c1 m1 -> carries p q c2 m2 ->
+  carries p q (add w (sk_pk (from_pq w p q)) c1 c2) (m1 + m2) /\
+  decrypt w (from_pq w p q) (add w (sk_pk (from_pq w p q)) c1 c2) = (m1 + m2) mod (p * q) /\
+  decrypt_fast w (from_pq w p q) (add w (sk_pk (from_pq w p q)) c1 c2) = (m1 + m2) mod (p * q).
+Print Assumptions add_hom_any_ciphertext.
+
+Theorem mul_hom_any_ciphertext : forall (w : widths) (p q : Z), widths_ok w -> key_ok w p q ->
+  forall c m k : Z, carries p q c m -> 0 <= k < p * q ->
+  carries p q (mul w (sk_pk (from_pq w p q)) c k) (k * m) /\
+  mul_vartime w (sk_pk (from_pq w p q)) c k = mul w (sk_pk (from_pq w p q)) c k /\
+  decrypt w (from_pq w p q) (mul w (sk_pk (from_pq w p q)) c k) = (k * m) mod (p * q) /\
+  decrypt_fast w (from_pq w p q) (mul w (sk_pk (from_pq w p q)) c k) = (k * m) mod (p * q).
+Proof. exact S_mul_hom_any. Qed.
+Check mul_hom_any_ciphertext : forall (w : widths) (p q : Z), widths_ok w -> key_ok w p q ->
+  forall c m k : Z, carries p q c m -> 0 <= k < p * q ->
+  carries p q (mul w (sk_pk (from_pq w p q)) c k) (k * m) /\
+  mul_vartime w (sk_pk (from_pq w p q)) c k = mul w (sk_pk (from_pq w p q)) c k /\
+  decrypt w (from_pq w p q) (mul w (sk_pk (from_pq w p q)) c k) = (k * m) mod (p * q) /\
+  decrypt_fast w (from_pq w p q) (mul w (sk_pk (from_pq w p q)) c k) = (k * m) mod (p * q).
+Print Assumptions mul_hom_any_ciphertext.
+
+(** every expression tree of encrypt / add / mul / mul_vartime with API-admissible leaves and scalars, of any
+    depth: both decryption paths return the tree's integer value mod N; the ciphertext equals the one computed
+    with plain products and powers mod N^2; replacing mul_vartime by mul anywhere changes nothing *)
+Theorem hom_tree : forall (w : widths) (p q : Z), widths_ok w -> key_ok w p q ->
+  forall e : hexpr, hwf (p * q) e ->
+  decrypt w (from_pq w p q) (hct w (sk_pk (from_pq w p q)) e) = hval e mod (p * q) /\
+  decrypt_fast w (from_pq w p q) (hct w (sk_pk (from_pq w p q)) e) = hval e mod (p * q) /\
+  hct w (sk_pk (from_pq w p q)) e = hct_spec (p * q * (p * q)) (encrypt w (sk_pk (from_pq w p q))) e /\
+  hct w (sk_pk (from_pq w p q)) (devar e) = hct w (sk_pk (from_pq w p q)) e.
+Proof. exact S_tree. Qed.
+Check hom_tree : forall (w : widths) (p q : Z), widths_ok w -> key_ok w p q ->
+  forall e : hexpr, hwf (p * q) e ->
+  decrypt w (from_pq w p q) (hct w (sk_pk (from_pq w p q)) e) = hval e mod (p * q) /\
+  decrypt_fast w (from_pq w p q) (hct w (sk_pk (from_pq w p q)) e) = hval e mod (p * q) /\
+  hct w (sk_pk (from_pq w p q)) e = hct_spec (p * q * (p * q)) (encrypt w (sk_pk (from_pq w p q))) e /\
+  hct w (sk_pk (from_pq w p q)) (devar e) = hct w (sk_pk (from_pq w p q)) e.
+Print Assumptions hom_tree.
+
+(** non-vacuity: a depth-4 tree under the key (11,17) whose value 186*(186*(100+150)+186) wraps N = 187 many
+    times meets [hwf], and the model computes what the theorem says (the value is 64 mod 187) *)
+Theorem hom_tree_nonvacuous :
+  let e := HMul (HAdd (HMulV (HAdd (HEnc 100 2) (HEnc 150 3)) 186) (HEnc 186 5)) 186 in
+  hwf (11 * 17) e /\ hval e > 1000 * (11 * 17) /\
+  decrypt cfg512 (from_pq cfg512 11 17) (hct cfg512 (sk_pk (from_pq cfg512 11 17)) e) = 64.
+Proof. exact hom_tree_example. Qed.
+Check hom_tree_nonvacuous :
+  let e := HMul (HAdd (HMulV (HAdd (HEnc 100 2) (HEnc 150 3)) 186) (HEnc 186 5)) 186 in
+  hwf (11 * 17) e /\ hval e > 1000 * (11 * 17) /\
+  decrypt cfg512 (from_pq cfg512 11 17) (hct cfg512 (sk_pk (from_pq cfg512 11 17)) e) = 64.
+Print Assumptions hom_tree_nonvacuous.
 
 (** non-vacuity of the premises (see Props/C07.v) *)
 Theorem key_ok_nonvacuous : widths_ok cfg512 /\ key_ok cfg512 11 17 /\ key_ok cfg512 4294967291 4294967279.
